@@ -213,6 +213,33 @@ class Shared:
         raise Unsupported(f"unknown shared cell {name}")
 
 
+class StateObject:
+    """The shared failure state kept as ATTRIBUTES OF ONE OBJECT instead of closure cells (``state.stop``, ``state.error_count``,
+    ``state.first_node_error``, one lock): the same shared variables under the same discipline - every attribute access is one atomic step of
+    the rely/guarantee proof, exactly like a cell access.  The three variables are recognised by their names; the one other attribute the code
+    enters as a context manager is the failure lock.  Anything else is not described by this contract: undecided."""
+
+    def __init__(self, th, shared):
+        object.__setattr__(self, "_th", th)
+        object.__setattr__(self, "_shared", shared)
+        object.__setattr__(self, "_lock", {})
+
+    def __getattr__(self, name):
+        if name in ("stop", "error_count", "first_node_error"):
+            return getattr(self._shared, name)
+        locks = self._lock
+        if name not in locks:
+            if locks:
+                raise Unsupported(f"state object: second unknown attribute {name!r} (one lock expected)")
+            locks[name] = LockProxy(self._th, "fail")
+        return locks[name]
+
+    def __setattr__(self, name, value):
+        if name in ("stop", "error_count", "first_node_error"):
+            return setattr(self._shared, name, value)
+        raise Unsupported(f"state object: write to unknown attribute {name!r}")
+
+
 class _Prev:
     """a NodeError recorded earlier by some other thread (truthy, like every exception instance: T16)"""
 
@@ -490,7 +517,17 @@ def run_process_node(ctx, k_none):
         "isinstance": isinstance,
     }
     get(REL, "coerce_node_error").compile_into(env)
-    pn = get(REL, "run_function_on_graph.<locals>.process_node", cut_loops="auto").compile_into(env)
+    ex = get(REL, "run_function_on_graph.<locals>.process_node", cut_loops="auto")
+    pn = ex.compile_into(env)
+    # shared state kept in one object instead of closure cells: the single free name of process_node that nothing supplies stands for it
+    import builtins as _b
+
+    from ujvc.extract import _global_names
+
+    free = sorted(n for n in _global_names(pn.__code__) if n not in env and not hasattr(_b, n))
+    uses_cells = "__sh" in _global_names(pn.__code__)
+    if len(free) == 1 and not uses_cells:
+        env[free[0]] = StateObject(th, env["__sh"])
     raised = None
     try:
         r = pn(th.me_obj)
